@@ -5,7 +5,7 @@
    = multiset produced, acknowledged ids = finished ids, no value twice, fields kept) evaluated on
    what the implementation was seen to do. *)
 From Coq Require Import List Bool Arith ZArith NArith Ascii.
-From ZenoV Require Import Lib.Harness Lib.Hex Queue.HopsPath Queue.Batcher Queue.LqDb Queue.Fields.
+From ZenoV Require Import Lib.Harness Lib.Hex Queue.HopsPath Queue.Json Queue.Batcher Queue.LqDb Queue.Fields.
 Import ListNotations.
 
 (* ------------------------------------------------------------------ generic helpers *)
@@ -78,41 +78,51 @@ Definition att_label (c : cfg) (s : st A) (b : list A) (o : res) : option (label
   else match find_sender b 0 (snds s) with Some i => Some (Attempt i o) | None => None end.
 
 (* make the machine hold batch [b]: receive further items while the open batch is a proper prefix
-   of [b], close it by a timer tick when it equals [b] (or cannot become [b]) *)
-Fixpoint build (fuel : nat) (c : cfg) (sa : sl) (defer : list A) (b : list A) : option (sl * list A) :=
+   of [b]; close it by a timer tick when it equals [b]; when it cannot become [b] (an earlier
+   batch whose request was seen later, possible with several senders) keep receiving until it
+   equals one of the batches seen anywhere in the history [fut], then close it *)
+Fixpoint build (fuel : nat) (c : cfg) (fut : list (list A)) (sa : sl) (defer : list A) (b : list A)
+  : option (sl * list A) :=
   match fuel with
   | O => None
   | S f =>
       match att_label c (fst sa) b Ok with
       | Some _ => Some (sa, defer)
       | None =>
-          if negb (list_eqb (pending (fst sa)) b) && is_prefix (pending (fst sa)) b then
+          let p := pending (fst sa) in
+          let recv_next :=
             match defer with
             | [] => None
             | x :: d => match try_step c sa (Recv x) with
-                        | Some sa' => build f c (sat c sa') d b
+                        | Some sa' => build f c fut (sat c sa') d b
                         | None => None
                         end
-            end
-          else match try_step c sa Tick with
-               | Some sa' => build f c (sat c sa') defer b
-               | None => None
-               end
+            end in
+          let tick :=
+            match try_step c sa Tick with
+            | Some sa' => build f c fut (sat c sa') defer b
+            | None => None
+            end in
+          if list_eqb p b then tick
+          else if is_prefix p b then recv_next
+          else if existsb (list_eqb p) fut then tick
+          else recv_next
       end
   end.
 
-Fixpoint infer_go (c : cfg) (sa : sl) (defer : list A) (evs : list oev) : option (sl * list A) :=
+Fixpoint infer_go (c : cfg) (fut : list (list A)) (sa : sl) (defer : list A) (evs : list oev)
+  : option (sl * list A) :=
   match evs with
   | [] => Some (sa, defer)
-  | ORecv x :: r => infer_go c sa (defer ++ [x]) r
+  | ORecv x :: r => infer_go c fut sa (defer ++ [x]) r
   | OAtt b o :: r =>
-      match build (2 * List.length defer + 4) c sa defer b with
+      match build (2 * List.length defer + 4) c fut sa defer b with
       | None => None
       | Some (sa', defer') =>
           match att_label c (fst sa') b o with
           | None => None
           | Some l => match try_step c sa' l with
-                      | Some sa'' => infer_go c (sat c sa'') defer' r
+                      | Some sa'' => infer_go c fut (sat c sa'') defer' r
                       | None => None
                       end
           end
@@ -130,8 +140,11 @@ Fixpoint flush (c : cfg) (sa : sl) (defer : list A) : sl * list A :=
 
 (* a label sequence of the model that shows the observed events, if one is found (untrusted:
    [trace_ok] re-runs it through [run]) *)
+Definition att_batches (evs : list oev) : list (list A) :=
+  flat_map (fun e => match e with OAtt b _ => [b] | ORecv _ => [] end) evs.
+
 Definition infer (c : cfg) (evs : list oev) : option (list (label A)) :=
-  match infer_go c (init, []) [] evs with
+  match infer_go c (att_batches evs) (init, []) [] evs with
   | None => None
   | Some (sa, defer) =>
       match flush c sa defer with
@@ -330,7 +343,7 @@ Record hcase := HC {
 Definition hq_triple (u : hqurl) : b3 := (hu_value u, hu_via u, hu_path u).
 
 Definition pev_oev (e : pev) : oev (A := b3) :=
-  match e with PR o => ORecv (hq_triple (hq_of_outlink o)) | PA b r _ => OAtt b r end.
+  match e with PR o => ORecv (hq_triple (hq_wire (hq_of_outlink o))) | PA b r _ => OAtt b r end.
 Definition fev_oev (e : fev) : oev (A := idn) :=
   match e with FR id n => ORecv (id, n) | FA b r _ _ => OAtt b r end.
 
@@ -347,13 +360,22 @@ Definition hdiff (c : hcase) : bool :=
     && forallb (fun e => match e with FA b _ crawls _ => N.eqb (sumN b) crawls | _ => true end) (h_fev c)).
 
 (* monitor 0: every produced outlink was delivered exactly once by an acknowledged add, with its
-   text, via and hop count *)
+   text and via (as the JSON wire carries them, Queue/Json.v) and its hop count *)
+Definition delivered_tvh (c : hcase) : list tvh :=
+  flat_map (fun e => match e with
+                     | PA b Ok _ => map (fun '(v, via, p) => (v, via, nL p)) b
+                     | _ => [] end) (h_pev c).
+
 Definition hmon_outlinks (c : hcase) : bool :=
   ms_eqb tvh_eqb
+    (flat_map (fun e => match e with PR o => [(json_wire (o_text o), json_wire (o_via o), o_hops o)] | _ => [] end) (h_pev c))
+    (delivered_tvh c).
+
+(* monitor 4: ... and text and via arrive byte for byte as produced *)
+Definition hmon_text_exact (c : hcase) : bool :=
+  ms_eqb tvh_eqb
     (flat_map (fun e => match e with PR o => [(o_text o, o_via o, o_hops o)] | _ => [] end) (h_pev c))
-    (flat_map (fun e => match e with
-                        | PA b Ok _ => map (fun '(v, via, p) => (v, via, nL p)) b
-                        | _ => [] end) (h_pev c)).
+    (delivered_tvh c).
 
 (* monitor 1: retries repeat the batch, batches are non-empty and within the configured size,
    never more requests in flight than senders *)
@@ -383,7 +405,7 @@ Definition hmon_acks (c : hcase) : bool :=
     (flat_map (fun e => match e with FA b Ok _ _ => map fst b | _ => [] end) (h_fev c)).
 
 Definition hdiffs (l : list hcase) := bad_idx hdiff l.
-Definition hmons (l : list hcase) := mon_idx [hmon_outlinks; hmon_batches; hmon_seeds; hmon_acks] l.
+Definition hmons (l : list hcase) := mon_idx [hmon_outlinks; hmon_batches; hmon_seeds; hmon_acks; hmon_text_exact] l.
 
 (* ------------------------------------------------------------------ lqflow *)
 
